@@ -15,6 +15,7 @@
 #include <cocls/async.h>
 #include <cocls/mutex.h>
 #include <cocls/queue.h>
+#include <cocls/self.h>
 #include <cocls/thread_pool.h>
 #include <deque>
 #include <memory>
@@ -23,11 +24,11 @@
 namespace scn {
 
 enum { S_SPAWN_DISCARD = 0, S_SPAWN_AWAIT_SP, S_CALL_CHILD, S_PAUSE, S_RESOLVE_DISCARD, S_RESOLVE_AWAIT, S_AWAIT_FUT, S_LOCK, S_UNLOCK_DISCARD,
-       S_UNLOCK_AWAIT, S_PUSH_DISCARD, S_PUSH_AWAIT, S_POP, S_START_CHILD, S_JOIN_STARTED, S_CREATE_SP_DISCARD, S_CREATE_SP_AWAIT, S_NESTED_DRAIN, S_NKINDS };
+       S_UNLOCK_AWAIT, S_PUSH_DISCARD, S_PUSH_AWAIT, S_POP, S_START_CHILD, S_JOIN_STARTED, S_CREATE_SP_DISCARD, S_CREATE_SP_AWAIT, S_NESTED_DRAIN, S_RESOLVE_AWAIT_SELF, S_NKINDS };
 inline const char *sk_name(int k) {
     static const char *n[] = {"spawn", "co_await spawn", "co_await child()", "pause", "resolve", "co_await resolve", "await", "lock", "unlock", "co_await unlock",
                               "push", "co_await push", "pop", "start() child", "join started child", "create_suspend_point(resolve)", "co_await create_suspend_point(resolve)",
-                              "nested install_queue_and_call"};
+                              "nested install_queue_and_call", "co_await [resolve + own handle]"};
     return n[k];
 }
 struct c5_step { int kind; int arg; };
@@ -104,6 +105,12 @@ inline cocls::async<void> c5_coro(c5_world &W, int cid) {
                 case S_PAUSE: W.on_suspend(cid); co_await cocls::pause(); W.on_resume(cid); break;
                 case S_RESOLVE_DISCARD: if (W.P[st.arg]) (*W.P[st.arg])(cid); break;
                 case S_RESOLVE_AWAIT: if (W.P[st.arg]) { cocls::suspend_point<bool> sp = (*W.P[st.arg])(cid); W.on_suspend(cid); co_await sp; W.on_resume(cid); } break;
+                case S_RESOLVE_AWAIT_SELF:
+                    // the awaited suspend point carries the released waiters AND, as its last entry, the awaiting coroutine's own handle
+                    // (co_await self(), supported "to avoid double insert"): the waiters are queued and this coroutine goes on at once -
+                    // observably the same as discarding the suspend point, and it must not be resumed a second time later
+                    if (W.P[st.arg]) { cocls::suspend_point<bool> sp = (*W.P[st.arg])(cid); sp << (co_await cocls::self()); co_await sp; }
+                    break;
                 case S_CREATE_SP_DISCARD:
                     if (W.P[st.arg]) {
                         // the public helper collects what fn() made ready into a suspend point; discarding it re-queues them behind
@@ -304,6 +311,7 @@ struct c5_model {
                 break;
             case S_PAUSE: x.state = 1; yield_cpu({}, c); break;
             case S_CREATE_SP_DISCARD:
+            case S_RESOLVE_AWAIT_SELF:
             case S_RESOLVE_DISCARD: if (!fut_resolved[st.arg]) { fut_resolved[st.arg] = true; std::vector<int> g = fut_wait[st.arg]; fut_wait[st.arg].clear(); make_ready_group(g); } break;
             case S_CREATE_SP_AWAIT:
             case S_RESOLVE_AWAIT:
@@ -345,7 +353,7 @@ inline std::vector<c5_step> c5_random_script(vf::rng &r, int nscripts, int nsafe
         else if (x < 36) { if (nested_safe) continue; st.kind = S_NESTED_DRAIN; }
         else if (x < 42) { st.kind = S_RESOLVE_DISCARD; st.arg = (int)r.below(c5_world::NF); }
         else if (x < 45) { st.kind = nested_safe || r.chance(1, 2) ? S_CREATE_SP_DISCARD : S_CREATE_SP_AWAIT; st.arg = (int)r.below(c5_world::NF); }
-        else if (x < 50) { if (nested_safe) continue; st.kind = S_RESOLVE_AWAIT; st.arg = (int)r.below(c5_world::NF); }
+        else if (x < 50) { if (nested_safe) continue; st.kind = r.chance(1, 3) ? S_RESOLVE_AWAIT_SELF : S_RESOLVE_AWAIT; st.arg = (int)r.below(c5_world::NF); }
         else if (x < 61) { st.kind = S_AWAIT_FUT; st.arg = (int)r.below(c5_world::NF); }
         else if (x < 70) st.kind = S_LOCK;
         else if (x < 77) st.kind = S_UNLOCK_DISCARD;
